@@ -4,6 +4,7 @@ use vstd::prelude::*;
 use vstd::string::*;
 use crate::vx_utf8::*;
 use crate::vx_lex::*;
+broadcast use crate::vx_utf8::group_char_eq;
 //@]
 use crate::{
     data::{
